@@ -1,4 +1,6 @@
 mod engine;
+mod frames;
+mod stream;
 mod histprop;
 mod l1;
 mod panics;
@@ -62,14 +64,32 @@ fn check(id: &'static str, tier: Tier) -> i32 {
         }
         return histprop::finish(&ctx, &hp, &acc);
     }
-    eprintln!("unknown property {}", id);
-    2
+    match id {
+        "C10" => {
+            let mut ctx = Ctx::new(id, tier, "exploration");
+            props::c10::check(&mut ctx)
+        }
+        "C09" => {
+            let mut ctx = Ctx::new(id, tier, "exploration");
+            props::c09::check(&mut ctx)
+        }
+        _ => {
+            eprintln!("unknown property {}", id);
+            2
+        }
+    }
 }
 
 fn replay(id: &'static str, path: &str) -> i32 {
     if let Some(hp) = hist_prop(id) {
         return histprop::replay(&hp, path);
     }
-    eprintln!("unknown property {}", id);
-    2
+    match id {
+        "C10" => props::c10::replay(path),
+        "C09" => props::c09::replay(path),
+        _ => {
+            eprintln!("unknown property {}", id);
+            2
+        }
+    }
 }
